@@ -13,7 +13,7 @@ LEVEL_TEXT = ('Bounded symbolic verification: (safety, inductive) after one real
               'Established within idle_hold_time + one connection cycle of virtual time, it is still Established three hold times '
               'later, and the OPEN of the healed session is byte-identical to the very first OPEN (nothing leaked).')
 LEVEL_NOTE = 'Twisted as modelled, virtual clock; timer configurations enumerated; the cooperative peer proposes hold 90 / 3 / 0.'
-LEVEL_ADDED = 'Also: every one-step obligation again from states with an earlier connection in the history, and under a timer configuration that tells connect-retry (120 s) from idle-hold (10 s) apart; the pending idle-hold delay is bounded by idle_hold_time; heal bound = idle_hold_time + 1 s. After every step the close the agent asked for is completed and the reconnection must still be pending; heal histories in which the peer comes back with another BGP identifier.'
+LEVEL_ADDED = 'Also: every one-step obligation again from states with an earlier connection in the history, and under a timer configuration that tells connect-retry (120 s) from idle-hold (10 s) apart; the pending idle-hold delay is bounded by idle_hold_time; heal bound = idle_hold_time + 1 s. After every step the close the agent asked for is completed and the reconnection must still be pending; heal histories in which the peer comes back with another BGP identifier. Idle / Connect states with a hold timer left over from the previous connection (reachable on the pinned tree), every event including its expiry.'
 TECHNIQUE = 'symbolic one-step pending-reconnect invariant + bounded symbolic adversarial sequences followed by a cooperative script (CrossHair+z3)'
 EXPLANATION = 'C02: pending-reconnect invariant and cooperative-recovery script after symbolic adversarial prefixes.'
 BOUNDS = 'adversarial prefix depth <= 3 (quick) / 4 (thorough) over 16 event classes; 3 timer configurations; cooperative phase <= 14 steps + 9 keepalive rounds'
